@@ -440,6 +440,11 @@ mod fp31 {
     field_impl! { Fp31, u8, u16, 8, 31 }
     rem_modulo_impl! { Fp31, u16 }
 
+    #[cfg(kani)]
+    mod verif_kani {
+        include!(concat!(env!("IPA_VERIF_DIR"), "/kani/fp31.rs"));
+    }
+
     impl MultiplyAccumulate for Fp31 {
         type Accumulator = Fp31;
         type AccumulatorArray<const N: usize> = [Fp31; N];
@@ -471,6 +476,11 @@ mod fp31 {
 mod fp32bit {
     field_impl! { Fp32BitPrime, u32, u64, 32, 4_294_967_291 }
     rem_modulo_impl! { Fp32BitPrime, u64 }
+
+    #[cfg(kani)]
+    mod verif_kani {
+        include!(concat!(env!("IPA_VERIF_DIR"), "/kani/fp32.rs"));
+    }
 
     impl Vectorizable<32> for Fp32BitPrime {
         type Array = StdArray<Fp32BitPrime, 32>;
@@ -536,6 +546,11 @@ mod fp32bit {
 
 mod fp61bit {
     field_impl! { Fp61BitPrime, u64, u128, 61, 2_305_843_009_213_693_951 }
+
+    #[cfg(kani)]
+    mod verif_kani {
+        include!(concat!(env!("IPA_VERIF_DIR"), "/kani/fp61.rs"));
+    }
 
     // For multiply-accumulate of `Fp61BitPrime` using `u128` as the accumulator, we can add 64
     // products onto an original field element before reduction is necessary. i.e., 64 * (2^61 - 2)^2 +
@@ -688,3 +703,8 @@ mod fp61bit {
 pub use fp31::Fp31;
 pub use fp32bit::Fp32BitPrime;
 pub use fp61bit::Fp61BitPrime;
+
+#[cfg(kani)]
+mod verif_kani {
+    include!(concat!(env!("IPA_VERIF_DIR"), "/kani/prime_field.rs"));
+}
